@@ -77,7 +77,7 @@ def escape_letter_pushes(crate, reader_fn_path, letter, inline_extra=()):
                     v = ev[6][1] if len(ev[6]) > 1 else None
                     pushes.append(v if isinstance(v, int) else "?")
                 elif any(n.startswith("parse::read::") and not n.startswith("parse::read::Read::") and
-                         not n.endswith("::error") and not n.endswith("next_or_eof") for n in nm):
+                         not n.endswith("::error") and not n.endswith("next_or_eof") and n not in lex.thin_wrappers(crate) for n in nm):
                     calls.append(sorted(n for n in nm if n.startswith("parse::read::"))[0])
         codes = lex.error_codes(p, crate)
         if codes:
